@@ -62,7 +62,32 @@ def main():
                 cmd += ["--budget", a.budget]
             if a.workers:
                 cmd += ["--workers", a.workers]
-            r = subprocess.run(cmd, cwd=HERE, env=env, capture_output=True, text=True)
+            if a.in_repo:
+                # prescribed way: the patch is in /repo only while the check copies the working tree (about a second),
+                # then `git -C /repo checkout -- .` straight away; the check goes on with its staged copy
+                import time
+
+                mark = tempfile.mktemp(prefix="verif-staged-", dir="/dev/shm")
+                env2 = dict(env)
+                env2["VERIF_STAGE_MARK"] = mark
+                if c != checks[0]:
+                    subprocess.run(["git", "-C", "/repo", "apply", patch], check=True)
+                pr = subprocess.Popen(cmd, cwd=HERE, env=env2, stdout=subprocess.PIPE, stderr=subprocess.STDOUT, text=True)
+                t0 = time.time()
+                while not os.path.exists(mark) and pr.poll() is None and time.time() - t0 < 120:
+                    time.sleep(0.1)
+                subprocess.run(["git", "-C", "/repo", "checkout", "--", "."])
+                out, _ = pr.communicate()
+                if os.path.exists(mark):
+                    os.unlink(mark)
+
+                class R:
+                    pass
+
+                r = R()
+                r.stdout, r.returncode = out, pr.returncode
+            else:
+                r = subprocess.run(cmd, cwd=HERE, env=env, capture_output=True, text=True)
             sigs = re.findall(r"signature=(\S+)", r.stdout)
             viol = re.findall(r"^VIOLATION property=(\S+) replay=(\S+)", r.stdout, re.M)
             herr = re.findall(r"^HARNESS-ERROR (.*)$", r.stdout, re.M)
